@@ -1,4 +1,4 @@
-import MsqProofs.Lemmas.ParseCaseStmt2
+import MsqProofs.Lemmas.ParseCase8
 import MsqProofs.Props.C09
 /-!
 # C09, parser half: the letter case of WORD tokens never changes what the parser does
@@ -17,7 +17,8 @@ in `Lemmas/ParseCase7.lean`) a lemma `f_ce : args ~ args' → f args ≈ f args'
 
 ## What is proved here
 * `C09.parse_case_invariant` (+ `_accept`, `_reject`, `_kinds`, `_loop`, `_statement`): `parse_statements` on case-equivalent token lists.
-* `C09.entries_case_invariant`: EVERY entry point of `PM.entries` (58): same accept / reject, same error kind, case-equivalent remaining
+* `C09.entries_case_invariant`, `entries2_case_invariant`, `entriesAll_case_invariant`: EVERY public entry point (`PM.entries` 58 + `PM.entries2`
+  26 = 84): same accept / reject, same error kind, case-equivalent remaining
   cursors (hence the same number of unconsumed tokens) — the typed `≈` form for each entry is the lemma `PM.<function>_ce` it wraps.
 * text level: `C09.parse_case_invariant_text`, `C09.parseText_case_invariant` (the entry points on text, with the fuel they compute
   themselves: `fuelFor` does not depend on letter case, `cel_sizeL`), composed with the lexer half through `C09.keyword_variants_ce`
@@ -212,6 +213,51 @@ theorem entries_case_invariant : ∀ e ∈ PM.entries, ∀ (d : Gen.D) (f : Nat)
 /-- the number of entry points covered -/
 example : PM.entries.length = 58 := by decide
 
+/-- **C09.entries2_case_invariant**: the same for the other 26 public entry points (`PM.entries2`, `MsqModel/Parse/Entry2.lean`; their
+functions: `Lemmas/ParseCase8.lean`) -/
+theorem entries2_case_invariant : ∀ e ∈ PM.entries2, ∀ (d : Gen.D) (f : Nat) (ts ts' : List Tok), CEL ts ts' →
+    OutcomeCE (e.2 d f ts) (e.2 d f ts') := by
+  unfold PM.entries2
+  simp only [List.forall_mem_cons, List.not_mem_nil, false_imp_iff, implies_true, and_true]
+  and_intros
+  all_goals intro d f ts ts' h
+  case _ => entry_ce pInsertType_ce ts ts' h
+  case _ => entry_ce pJoinType_ce ts ts' h
+  case _ => entry_ce pOrderType_ce ts ts' h
+  case _ => entry_ce pUnionType_ce ts ts' h
+  case _ => entry_ce pCompareOp_ce ts ts' h
+  case _ => entry_ce pComputeOp_ce ts ts' h
+  case _ => entry_ce pCastDataType_ce ts ts' h
+  case _ => entry_ce pRowItem_ce ts ts' h
+  case _ => entry_ce pWindowRow_ce ts ts' h
+  case _ => entry_ce pWildcard_ce ts ts' h
+  case _ => entry_ce pAlias_ce ts ts' h
+  case _ => entry_ce pMultiAlias_ce ts ts' h
+  case _ => entry_ce pJoinOn_ce d f ts ts' h
+  case _ => entry_ce pJoinUsing_ce d f ts ts' h
+  case _ => entry_ce pJoinExpr_ce d f ts ts' h
+  case _ => entry_ce pSelectCol_ce d f ts ts' h
+  case _ => entry_ce pSelectClause_ce d f ts ts' h
+  case _ => entry_ce pFromClause_ce d f ts ts' h
+  case _ => entry_ce pGroupingSets_ce d f ts ts' h
+  case _ => entry_ce pOptOr_ce d f "HAVING" ts "HAVING" ts' rfl h
+  case _ => entry_ce pSortBy_ce d f ts ts' h
+  case _ => entry_ce pByList_ce d f "DISTRIBUTE" ts "DISTRIBUTE" ts' rfl h
+  case _ => entry_ce pByList_ce d f "CLUSTER" ts "CLUSTER" ts' rfl h
+  case _ => entry_ce pWithTable_ce d f ts ts' h
+  case _ => entry_ce pUpdateSetCol_ce d f ts ts' h
+  case _ => entry_ce pUpdateSet_ce d f ts ts' h
+
+/-- **C09.entriesAll_case_invariant**: all 84 public parsing entry points -/
+theorem entriesAll_case_invariant : ∀ e ∈ PM.entriesAll, ∀ (d : Gen.D) (f : Nat) (ts ts' : List Tok), CEL ts ts' →
+    OutcomeCE (e.2 d f ts) (e.2 d f ts') := by
+  intro e he
+  simp only [entriesAll, List.mem_append] at he
+  rcases he with he | he
+  · exact entries_case_invariant e he
+  · exact entries2_case_invariant e he
+example : PM.entriesAll.length = 84 := by decide
+
 /-! ## text level -/
 
 mutual
@@ -260,6 +306,38 @@ theorem parseText_case_invariant (entry : String) (d : Gen.D) (text text' : List
     simp only [h1, h2, ← cel_fuelFor ts ts' h]
     cases ha : p d (fuelFor ts) ts <;> cases hb : p d (fuelFor ts) ts' <;> rw [ha, hb] at this <;> simp_all [OutcomeTextCE]
     exact cel_length this
+
+/-- one entry run on the token lists of two texts -/
+theorem run_entry_text (p : Entry) (hp : ∀ (d : Gen.D) (f : Nat) (ts ts' : List Tok), CEL ts ts' → OutcomeCE (p d f ts) (p d f ts'))
+    (d : Gen.D) (ts ts' : List Tok) (h : CEL ts ts') :
+    OutcomeTextCE (match p d (fuelFor ts) ts with | .ok (v, r) => .ok (v, r.length) | .error e => .error e)
+      (match p d (fuelFor ts') ts' with | .ok (v, r) => .ok (v, r.length) | .error e => .error e) := by
+  have := hp d (fuelFor ts) ts ts' h
+  rw [← cel_fuelFor ts ts' h]
+  cases ha : p d (fuelFor ts) ts <;> cases hb : p d (fuelFor ts) ts' <;> rw [ha, hb] at this <;> simp_all [OutcomeTextCE]
+  exact cel_length this
+/-- **C09.parseText2_case_invariant**: every one of the 84 public entry points `SQLParser.parse_<entry>(text, dialect)` -/
+theorem parseText2_case_invariant (entry : String) (d : Gen.D) (text text' : List Char) (ts ts' : List Tok)
+    (h1 : lex Gen.cfgS (dialectPre d text) = .ok ts) (h2 : lex Gen.cfgS (dialectPre d text') = .ok ts') (h : CEL ts ts') :
+    OutcomeTextCE (parseText2 entry d text) (parseText2 entry d text') := by
+  unfold parseText2
+  cases hf : PM.entriesAll.find? (·.1 == entry) with
+  | none => simp [OutcomeTextCE]
+  | some e =>
+    obtain ⟨n, p⟩ := e
+    simp only [h1, h2]
+    exact run_entry_text p (entriesAll_case_invariant (n, p) (List.mem_of_find?_eq_some hf)) d ts ts' h
+/-- … and called with a `TokenScanner` (no dialect pre-pass: the hypothesis is on the token lists of the texts themselves) -/
+theorem parseScanner2_case_invariant (entry : String) (d : Gen.D) (text text' : List Char) (ts ts' : List Tok)
+    (h1 : lex Gen.cfgS text = .ok ts) (h2 : lex Gen.cfgS text' = .ok ts') (h : CEL ts ts') :
+    OutcomeTextCE (parseScanner2 entry d text) (parseScanner2 entry d text') := by
+  unfold parseScanner2
+  cases hf : PM.entriesAll.find? (·.1 == entry) with
+  | none => simp [OutcomeTextCE]
+  | some e =>
+    obtain ⟨n, p⟩ := e
+    simp only [h1, h2]
+    exact run_entry_text p (entriesAll_case_invariant (n, p) (List.mem_of_find?_eq_some hf)) d ts ts' h
 
 /-! ## the link to the lexer half (`C09.keyword_case`) -/
 
